@@ -129,7 +129,10 @@ def _view_call(v):
 
 def _view_shape(v):
     c = _view_call(v)
-    return c is not None and "BytesRef" in str(c[1]) and "try_from" in str(c[1]) and c[2][0][0] == "rawslice" and c[2][0][2][0] == "sizeofval"
+    # the validating constructor of BytesRef under either of its names (TryFrom::try_from / the inherent one it may forward to:
+    # roles.bytesref_ctors; what it checks is C14.B1)
+    return c is not None and "bytes_ref::BytesRef" in str(c[1]) and ("try_from" in str(c[1]) or str(c[1]).endswith("::new")) and \
+        c[2][0][0] == "rawslice" and c[2][0][2][0] == "sizeofval"
 
 
 def _view_ptr(v):
